@@ -252,7 +252,7 @@ func c08H2Gen(target string) func(yield func(c08.Case) bool) {
 	}
 }
 
-const c08H2Bound = "all strings of length <=2 and 0x00+all 2-byte strings; frame alphabet from x/net's Framer {DATA pad 0/1/255, HEADERS (+priority+pad), SETTINGS, SETTINGS ack, PING, RST_STREAM, WINDOW_UPDATE, GOAWAY, PRIORITY, PUSH_PROMISE, unknown type, two DATA, HEADERS+1 and +2 CONTINUATION} x {every truncation; every frame length and pad length x {0,1,2,3,true-1,true+1,2^16-1,2^24-1}; every frame type and every flags byte x all 256 values; every stream id x {0,1,2,3,true-1,true+1,2^16-1,2^31-1,2^31,2^32-1,true|R-bit}; every byte x {0x00,0xFF,^b}; every payload +-1..3 bytes with length adjusted; 1..3 trailing bytes}"
+const c08H2Bound = "all strings of length <=2 and 0x00+all 2-byte strings; frame alphabet from x/net's Framer {DATA pad 0/1/255, HEADERS (+priority+pad), SETTINGS, SETTINGS ack, PING, RST_STREAM, WINDOW_UPDATE, GOAWAY, PRIORITY, PUSH_PROMISE, unknown type, two DATA, HEADERS+1 and +2 CONTINUATION} x {every truncation; every frame length and pad length x {0,1,2,3,true-1,true+1,2^16-1,2^24-1}; every frame type and every flags byte x all 256 values; every stream id x {0,1,2,3,true-1,true+1,2^16-1,2^31-1,2^31,2^32-1,true|R-bit}; every byte x {0x00,0xFF,^b} (thorough: x all 256 values); every payload +-1..3 bytes with length adjusted; 1..3 trailing bytes}"
 const c08H2Rule = "each input is read with a fresh MFramer (configured as NewServerConn/NewClientConn do) by repeated ReadFrame(ctx, buf, 0) until empty/ErrAGAIN/error, three times (exact-capacity buffer, 4096 spare bytes of 0xA5 / 0x3C); oracle: no panic escapes, identical frames/errors under different poison, TotalAlloc delta <= 1MiB+32*len(input), every call returns (60s; or >300ms with >128MiB in use and growing: the call is recorded and the enumeration continues in a fresh process, at most 8 (quick) / 400 (thorough) times). Which error a corrupted frame yields is not compared."
 
 func TestVerifC08H2Framer(t *testing.T) {
